@@ -35,6 +35,16 @@ pub open spec fn struct_fill_ok(fields: VSeq<(String, Option<Obj>)>, n: int) -> 
 pub fn call_type1(ty: &ObjType, arg: Obj) -> (r: NRes<Obj>) { unimplemented!() }
 #[verifier::external_body]
 pub fn expect_one(args: Vec<Obj>, msg: &str) -> (r: NRes<Obj>) { unimplemented!() }
+// ---- declaration (insert_declare): the environment is opaque; inserting is an uninterpreted function of (name, type, value) ----
+#[verifier::external_body] #[verifier::accept_recursive_types] pub struct EnvRefMut { _p: u8 }   // RefMut<Env>
+pub uninterp spec fn env_borrowable(env: REnv) -> bool;
+pub uninterp spec fn env_insert_spec(name: VSeq<char>, ty: ObjType, rhs: Obj) -> NRes<()>;
+#[verifier::external_body]
+pub fn try_borrow_mut_nres(r: &REnv, msg1: &str, msg2: &str) -> (res: NRes<EnvRefMut>) ensures res is Ok <==> env_borrowable(*r) { unimplemented!() }
+impl EnvRefMut {
+    #[verifier::external_body]
+    pub fn insert(&mut self, s: String, ty: ObjType, rhs: Obj) -> (r: NRes<()>) ensures r == env_insert_spec(s@, ty, rhs) { unimplemented!() }
+}
 impl ObjType { #[verifier::external_body] pub fn name(&self) -> (r: String) { unimplemented!() } }
 impl Clone for Struct { #[verifier::external_body] fn clone(&self) -> (r: Struct) ensures r == *self { unimplemented!() } }
 pub assume_specification<T, A: std::alloc::Allocator>[ Vec::<T, A>::reserve_exact ](v: &mut Vec<T, A>, additional: usize) ensures final(v)@ == old(v)@;
